@@ -55,7 +55,7 @@ def singleSlices (cc : Nat) (chunks : List Nat) : List QSlice :=
 
 /-- recursive branch, one group: `zip([x[0] for x in sub_block_info], _cumsum_blocks([x[1] for x in sub_block_info]))` -/
 def groupSlices (gi : Nat) (g : List (Nat × Nat)) : List QSlice :=
-  ((g.map (·.1)).zip (cumsumBlocks 0 (g.map (·.2)))).map fun je => ⟨je.1, gi, je.2.1, je.2.2⟩
+  List.zipWith (fun j se => (⟨j, gi, se.1, se.2⟩ : QSlice)) (g.map (·.1)) (cumsumBlocks 0 (g.map (·.2)))
 
 /-- recursive branch: the dict comprehension over `enumerate(all_blocks)` -/
 def recSlicesFrom (gi : Nat) : List (List (Nat × Nat)) → List QSlice
